@@ -17,6 +17,7 @@ struct Rec<'a> {
     batch: Vec<Vec<String>>,
     iter: Vec<Vec<String>>,
     biter: Vec<Vec<String>>,
+    titer: Vec<Vec<String>>,
     single: Vec<String>,
 }
 
@@ -124,6 +125,42 @@ pub fn render(kinds: &[String], variant: usize) -> String {
         }
     }
     t
+}
+
+/// the stream read as pairs of integers: only `[1, 2]` fits; the other documents fail, several of them on a look-ahead
+/// (a surplus element, the end of a sequence that is too short)
+pub fn observe_pairs(text: &str) -> Vec<Vec<String>> {
+    let mut out = vec![];
+    for which in ["read", "options"] {
+        let t = text.to_string();
+        out.push(
+            guarded(move || {
+                let mut rd = std::io::Cursor::new(t.into_bytes());
+                let mut items = vec![];
+                let f = |r: Result<(i64, i64), serde_saphyr::Error>| -> String {
+                    match r {
+                        Ok((1, 2)) => "V".into(),
+                        Ok(p) => format!("?{p:?}"),
+                        Err(e) => item_of(Err(e)),
+                    }
+                };
+                if which == "read" {
+                    for (n, r) in serde_saphyr::read::<_, (i64, i64)>(&mut rd).enumerate() {
+                        if n > 40 { items.push("NONTERMINATING".to_string()); break; }
+                        items.push(f(r));
+                    }
+                } else {
+                    for (n, r) in serde_saphyr::read_with_options::<_, (i64, i64)>(&mut rd, serde_saphyr::Options::default()).enumerate() {
+                        if n > 40 { items.push("NONTERMINATING".to_string()); break; }
+                        items.push(f(r));
+                    }
+                }
+                items
+            })
+            .unwrap_or_else(|p| vec![format!("PANIC:{p}")]),
+        );
+    }
+    out
 }
 
 pub fn observe(text: &str) -> (Vec<Vec<String>>, Vec<Vec<String>>, Vec<Vec<String>>, Vec<String>) {
@@ -261,7 +298,8 @@ pub fn run(args: &Args) -> i32 {
         if stats.samples.len() < 4 && kinds.len() >= 3 && variant == 1 {
             stats.samples.push(serde_json::json!({"id": id, "kinds": kinds, "yaml": text, "iter": iter}));
         }
-        w.put(&Rec { id, kinds, yaml: &text, batch, iter, biter, single });
+        let titer = observe_pairs(&text);
+        w.put(&Rec { id, kinds, yaml: &text, batch, iter, biter, titer, single });
     };
     if let Some(cases) = args.get("cases") {
         let cases: Vec<Case> = read_ndjson(cases);
